@@ -40,6 +40,7 @@ pub struct Pattern {
     src: String,
     anchored_regex: Regex,
     prefix_regex: Regex,
+    dot_matches_new_line: bool,
 }
 
 impl FromStr for Pattern {
@@ -53,12 +54,15 @@ impl FromStr for Pattern {
 #[derive(Default)]
 pub struct PatternOpts {
     case_insensitive: bool,
+    /// set for patterns translated from globs, where `**` must match any character
+    dot_matches_new_line: bool,
 }
 
 impl PatternOpts {
     pub fn case_insensitive() -> PatternOpts {
         PatternOpts {
             case_insensitive: true,
+            ..Default::default()
         }
     }
 }
@@ -84,15 +88,17 @@ impl Pattern {
         let pattern = pattern.to_string();
 
         let anchored_regex = "^".to_string() + &pattern + "$";
-        let anchored_regex = Regex::new(anchored_regex.as_str(), opts.case_insensitive);
+        let dot_nl = opts.dot_matches_new_line;
+        let anchored_regex = Regex::new_with(anchored_regex.as_str(), opts.case_insensitive, dot_nl);
         let prefix_regex = "^".to_string() + &pattern;
-        let prefix_regex = Regex::new(prefix_regex.as_str(), opts.case_insensitive);
+        let prefix_regex = Regex::new_with(prefix_regex.as_str(), opts.case_insensitive, dot_nl);
 
         match anchored_regex {
             Ok(anchored_regex) => Ok(Pattern {
                 src: pattern,
                 anchored_regex,
                 prefix_regex: prefix_regex.unwrap(),
+                dot_matches_new_line: dot_nl,
             }),
             Err(e) => Err(PatternError {
                 input: pattern,
@@ -134,7 +140,13 @@ impl Pattern {
     pub fn glob_with(glob: &str, opts: &PatternOpts) -> Result<Pattern, PatternError> {
         let result: IResult<&str, String> = Self::glob_to_regex(Scope::TopLevel, glob);
         match result {
-            Ok(("", regex)) => Self::regex_with(regex.as_str(), opts),
+            Ok(("", regex)) => Self::regex_with(
+                regex.as_str(),
+                &PatternOpts {
+                    case_insensitive: opts.case_insensitive,
+                    dot_matches_new_line: true,
+                },
+            ),
             Ok((remaining, _)) => Err(PatternError {
                 input: glob.to_string(),
                 cause: format!(
@@ -285,7 +297,11 @@ impl Add<Pattern> for Pattern {
     type Output = Pattern;
 
     fn add(self, rhs: Pattern) -> Self::Output {
-        Pattern::regex((self.to_string() + &rhs.to_string()).as_str()).unwrap()
+        let opts = PatternOpts {
+            case_insensitive: false,
+            dot_matches_new_line: self.dot_matches_new_line || rhs.dot_matches_new_line,
+        };
+        Pattern::regex_with((self.to_string() + &rhs.to_string()).as_str(), &opts).unwrap()
     }
 }
 
